@@ -50,6 +50,21 @@ structure Prims.EncTotal (P : Prims) : Prop where
   aead_some : ∀ a k iv p, a.isAead = true → k.length = keyLen a → iv.length = ivLen a →
     P.aeadEnc a k iv p ≠ none
 
+/-- Laws of the std address parser/printer and of the two ipcrypt ciphers (16-byte key for the AES
+    block, 32-byte key for the prefix-preserving cipher). -/
+structure IpPrims.Lawful (P : IpPrims) : Prop where
+  parse_show : ∀ ip, ip.WF → P.parseIp (P.showIp ip) = some ip
+  aes_rt : ∀ k b, k.length = 16 → b.length = 16 → P.aesDec k (P.aesEnc k b) = b
+  aes_len : ∀ k b, k.length = 16 → b.length = 16 → (P.aesEnc k b).length = 16
+  /-- the prefix-preserving cipher inverts itself when told the same address family;
+      in IPv4 mode it is only ever applied to IPv4-mapped blocks -/
+  pfx_rt : ∀ k v b, k.length = 32 → b.length = 16 → (v = true → isV4Form b = true) →
+    P.pfxDec k v (P.pfxEnc k v b) = b
+  pfx_len : ∀ k v b, k.length = 32 → b.length = 16 → (P.pfxEnc k v b).length = 16
+  /-- in IPv4 mode the first 96 bits are copied -/
+  pfx_keep4 : ∀ k b, k.length = 32 → b.length = 16 → isV4Form b = true →
+    isV4Form (P.pfxEnc k true b) = true
+
 end Crypt
 
 namespace C23
@@ -386,5 +401,120 @@ theorem noPanic_partial (P : Prims) (alg key iv ct : Bytes)
   obtain ⟨a, ha, hs, h' | h'⟩ := (decrypt_panic_iff P _ key iv ct).mp h
   · simp [D_aead_reject, ha, hs, h'.1] at hD
   · exact hks a h'.1 h'.2
+
+/-! ## IP addresses -/
+
+/-- `decrypt_ip` written without the duplicated IPv4/IPv6 arms. -/
+def decryptIpFlat (P : IpPrims) (ipText key mode : Bytes) : Res IpErr :=
+  match P.parseIp ipText with
+  | none => .err .parse
+  | some ip =>
+    match modeOf mode with
+    | none => .err .mode
+    | some .aes128 =>
+      if key.length ≠ 16 then .err (.key .aes128 ip.isV4)
+      else .ok (P.showIp (ipcryptDec P key ip))
+    | some .pfx =>
+      if key.length ≠ 32 then .err (.key .pfx ip.isV4)
+      else if pfxKeyPanics key then .panic
+      else .ok (P.showIp (pfxIpDec P key ip))
+
+/-- the IPv4 and IPv6 arms of `decrypt_ip` do the same thing. -/
+theorem decryptIp_flat (P : IpPrims) (t k m : Bytes) : decryptIp P t k m = decryptIpFlat P t k m := by
+  unfold decryptIp decryptIpFlat
+  cases P.parseIp t with
+  | none => rfl
+  | some ip =>
+    cases modeOf m with
+    | none => rfl
+    | some md => cases md <;> cases ip <;> rfl
+
+/-- mode dispatch, address parsing and key-size checks are the same in both directions: the two
+    functions reject the same (text, key, mode) with the same error, and panic on the same keys. -/
+theorem ip_checks_agree (P : IpPrims) (t k m : Bytes) :
+    (∀ e, encryptIp P t k m = .err e ↔ decryptIp P t k m = .err e) ∧
+    (encryptIp P t k m = .panic ↔ decryptIp P t k m = .panic) := by
+  rw [decryptIp_flat]
+  unfold encryptIp decryptIpFlat
+  cases P.parseIp t with
+  | none => simp
+  | some ip =>
+    cases modeOf m with
+    | none => simp
+    | some md =>
+      cases md
+      · by_cases hk : k.length = 16 <;> simp [hk]
+      · by_cases hk : k.length = 32 <;> by_cases hp : pfxKeyPanics k = true <;> simp [hk, hp]
+
+/-- AES-128 mode on addresses. -/
+theorem ipcrypt_roundtrip (P : IpPrims) (hL : P.Lawful) (k : Bytes) (ip : Ip) (hw : ip.WF)
+    (hk : k.length = 16) (h1 : D_v4mapped ip = false) :
+    ipcryptDec P k (ipcryptEnc P k ip) = ip := by
+  unfold ipcryptDec ipcryptEnc
+  rw [ipToBytes_bytesToIp, hL.aes_rt k _ hk (ipToBytes_length ip hw), bytesToIp_ipToBytes ip h1]
+
+/-- prefix-preserving mode on addresses. -/
+theorem pfx_roundtrip (P : IpPrims) (hL : P.Lawful) (k : Bytes) (ip : Ip) (hw : ip.WF)
+    (hk : k.length = 32) (h1 : D_v4mapped ip = false)
+    (h3 : D_pfx_v4form .pfx ip (pfxIpEnc P k ip) = false) :
+    pfxIpDec P k (pfxIpEnc P k ip) = ip := by
+  have hb := ipToBytes_length ip hw
+  -- the ciphertext is printed in the family of the plaintext
+  have hfam : (pfxIpEnc P k ip).isV4 = ip.isV4 := by
+    cases ip with
+    | v4 o =>
+      unfold pfxIpEnc
+      rw [bytesToIp_isV4]
+      exact hL.pfx_keep4 k _ hk hb (isV4Form_v4 o)
+    | v6 o =>
+      simpa [D_pfx_v4form, Ip.isV4] using h3
+  have hv : ip.isV4 = true → isV4Form (ipToBytes ip) = true := by
+    cases ip with
+    | v4 o => intro _; exact isV4Form_v4 o
+    | v6 o => intro h; simp [Ip.isV4] at h
+  unfold pfxIpDec
+  rw [hfam]
+  unfold pfxIpEnc
+  rw [ipToBytes_bytesToIp, hL.pfx_rt k _ _ hk hb hv, bytesToIp_ipToBytes ip h1]
+
+/-- **C23 (IP addresses), partial**: `decrypt_ip (encrypt_ip a) = a` for every parsable address
+    text, either mode and every key of the mode's size — outside the three decidable finding classes
+    `D_v4mapped` (IPv4-mapped IPv6 input), `D_pfx_equal_halves` (pfx key with equal halves: panic)
+    and `D_pfx_v4form` (pfx ciphertext of an IPv6 address falls into `::ffff:0:0/96`). Each class is
+    a real counterexample: `VrlProofs/Witness/C23.lean`. -/
+theorem ip_roundtrip_partial (P : IpPrims) (hL : P.Lawful) (t k m : Bytes) (ip : Ip) (md : Mode)
+    (hp : P.parseIp t = some ip) (hw : ip.WF) (hm : modeOf m = some md) (hk : k.length = md.keyLen)
+    (h1 : D_v4mapped ip = false)
+    (h2 : D_pfx_equal_halves md k = false)
+    (h3 : D_pfx_v4form md ip (pfxIpEnc P k ip) = false) :
+    ∃ c, encryptIp P t k m = .ok c ∧ decryptIp P c k m = .ok (P.showIp ip) := by
+  rw [show decryptIp P = decryptIpFlat P from funext fun a => funext fun b => funext fun c =>
+    decryptIp_flat P a b c]
+  cases md with
+  | aes128 =>
+    have hk' : k.length = 16 := hk
+    have hbl : (P.aesEnc k (ipToBytes ip)).length = 16 := hL.aes_len k _ hk' (ipToBytes_length ip hw)
+    refine ⟨P.showIp (ipcryptEnc P k ip), by simp [encryptIp, hp, hm, hk'], ?_⟩
+    unfold decryptIpFlat
+    rw [show P.parseIp (P.showIp (ipcryptEnc P k ip)) = some (ipcryptEnc P k ip) from
+      hL.parse_show _ (bytesToIp_WF _ hbl)]
+    simp [hm, hk', ipcrypt_roundtrip P hL k ip hw hk' h1]
+  | pfx =>
+    have hk' : k.length = 32 := hk
+    have hnp : pfxKeyPanics k = false := by simpa [D_pfx_equal_halves, hk'] using h2
+    have hbl : (P.pfxEnc k ip.isV4 (ipToBytes ip)).length = 16 :=
+      hL.pfx_len k _ _ hk' (ipToBytes_length ip hw)
+    refine ⟨P.showIp (pfxIpEnc P k ip), by simp [encryptIp, hp, hm, hk', hnp], ?_⟩
+    unfold decryptIpFlat
+    rw [show P.parseIp (P.showIp (pfxIpEnc P k ip)) = some (pfxIpEnc P k ip) from
+      hL.parse_show _ (bytesToIp_WF _ hbl)]
+    simp [hm, hk', hnp, pfx_roundtrip P hL k ip hw hk' h1 h3]
+
+/-- IPv4 addresses always round-trip (both modes): none of the address-dependent classes applies. -/
+theorem ip_roundtrip_v4 (P : IpPrims) (hL : P.Lawful) (t k m o : Bytes) (md : Mode)
+    (hp : P.parseIp t = some (.v4 o)) (hw : o.length = 4) (hm : modeOf m = some md)
+    (hk : k.length = md.keyLen) (h2 : D_pfx_equal_halves md k = false) :
+    ∃ c, encryptIp P t k m = .ok c ∧ decryptIp P c k m = .ok (P.showIp (.v4 o)) :=
+  ip_roundtrip_partial P hL t k m (.v4 o) md hp hw hm hk rfl h2 (by simp [D_pfx_v4form, Ip.isV4])
 
 end C23
